@@ -462,6 +462,13 @@ type symEnv struct {
 	init map[string]Val
 	// render element reads / slices with their evaluated index forms
 	elemForms bool
+	// arithmetic between two symbolic fixed-width integers (may wrap around)
+	wraps []string
+	// havocLoops: loops are over-approximated (variables assigned in them become unknown)
+	havocLoops bool
+	onLoop     func(st *symState, loop ast.Stmt)
+	onAssign   func(st *symState, lhs ast.Expr, rhs ast.Expr)
+	havocN     int
 }
 
 type symState struct {
@@ -593,6 +600,11 @@ func (e *symEnv) eval(st *symState, x ast.Expr) Val {
 		case token.ADD, token.SUB:
 			a, b := e.eval(st, x.X), e.eval(st, x.Y)
 			if a.Lin != nil && b.Lin != nil {
+				if !a.Lin.isConst() && !b.Lin.isConst() {
+					if tv, ok := e.info.Types[x]; ok && tv.Type != nil && isIntegerType(tv.Type) {
+						e.wraps = append(e.wraps, exprStr(x))
+					}
+				}
 				if x.Op == token.ADD {
 					return Val{Lin: a.Lin.add(b.Lin)}
 				}
@@ -803,6 +815,9 @@ func (e *symEnv) exec(st *symState, s ast.Stmt) []*symState {
 			if len(vs.Values) == len(vs.Names) {
 				for i, n := range vs.Names {
 					e.assign(st, n, e.eval(st, vs.Values[i]))
+					if e.onAssign != nil {
+						e.onAssign(st, n, vs.Values[i])
+					}
 				}
 			} else if len(vs.Values) == 0 {
 				for _, n := range vs.Names {
@@ -835,6 +850,9 @@ func (e *symEnv) exec(st *symState, s ast.Stmt) []*symState {
 				}
 				for i := range s.Lhs {
 					e.assign(st, s.Lhs[i], vals[i])
+					if e.onAssign != nil {
+						e.onAssign(st, s.Lhs[i], s.Rhs[i])
+					}
 				}
 			} else {
 				v := e.eval(st, s.Rhs[0])
@@ -1006,6 +1024,42 @@ func (e *symEnv) exec(st *symState, s ast.Stmt) []*symState {
 		e.problem("unsupported branch statement %s", s.Tok)
 		return nil
 	case *ast.ForStmt, *ast.RangeStmt:
+		if e.havocLoops {
+			ast.Inspect(s, func(x ast.Node) bool {
+				var keys []string
+				switch a := x.(type) {
+				case *ast.AssignStmt:
+					for _, l := range a.Lhs {
+						keys = append(keys, e.lvalKey(l))
+					}
+				case *ast.IncDecStmt:
+					keys = append(keys, e.lvalKey(a.X))
+				case *ast.RangeStmt:
+					if a.Key != nil {
+						keys = append(keys, e.lvalKey(a.Key))
+					}
+					if a.Value != nil {
+						keys = append(keys, e.lvalKey(a.Value))
+					}
+				}
+				for _, k := range keys {
+					if k == "" || k == "_" {
+						continue
+					}
+					if old, ok := st.vars[k]; ok && (old.Lin != nil) {
+						e.havocN++
+						st.vars[k] = Val{Lin: linSym(fmt.Sprintf("havoc%d:%s", e.havocN, k))}
+					} else if ok {
+						st.vars[k] = Val{Opaque: "havoc"}
+					}
+				}
+				return true
+			})
+			if e.onLoop != nil {
+				e.onLoop(st, s)
+			}
+			return []*symState{st}
+		}
 		e.problem("loop in a function bound to a SYM rule")
 		return nil
 	}
